@@ -562,7 +562,8 @@ class PopulationBalanceModel:
         dXdt = (self._netFlux[:-1] - self._netFlux[1:])
 
         #Find size class for nucleated particles
-        nRad = np.argmax(self.PSDbounds > nucRadius) - 1
+        #Radii below the smallest size class go to the first class (argmax - 1 would wrap around to the last class)
+        nRad = np.argmax(self.PSDbounds > nucRadius) - 1 if nucRadius >= self.PSDbounds[0] else 0
         dXdt[nRad] += nucRate
 
         return dXdt
@@ -614,7 +615,8 @@ class PopulationBalanceModel:
         dXdt = (self._netFlux[:-1] - self._netFlux[1:])
 
         #Find size class for nucleated particles
-        nRad = np.argmax(self.PSDbounds > nucRadius) - 1
+        #Radii below the smallest size class go to the first class (argmax - 1 would wrap around to the last class)
+        nRad = np.argmax(self.PSDbounds > nucRadius) - 1 if nucRadius >= self.PSDbounds[0] else 0
         dXdt[nRad] += nucRate
 
         return dXdt
